@@ -315,6 +315,15 @@ def check_value_flow(rep, facts, fb, we, rule='R12.6'):
             n += 1
             pl = tt[3][0]
             v = pl[3][0] if pl[0] == 'agg' and len(pl[3]) == 1 else ('unknown', 'shape')
+            # the value built as `let mut t = Self::default(); t.0.copy_from_slice(input); t`: a default value of the
+            # single-field type whose only write is a whole copy of the input into that field
+            if pl[0] == 'mem' and not pl[4] and len(pl[3]) == 1 and pl[2][0] == 'call' and pl[2][1].endswith('Default::default'):
+                w = pl[3][0]
+                selfty = (b.impl_of or {}).get('self_ty', '').split('<')[0]
+                adt = facts.adts.get(selfty)
+                one_field = bool(adt) and len(adt['variants']) == 1 and len(adt['variants'][0]['fields']) == 1
+                if one_field and w[3] and w[1] == (('f', '0'),):
+                    v = ('mem', pl[1], pl[2], ((w[0], (), w[2], w[3]),), ())
             how = None
             x = v
             if x[0] == 'call' and x[1] == 'core::convert::Into::into' and len(x[2]) == 1:
